@@ -2098,6 +2098,20 @@ func (ss *ServerSession) initialize(ctx context.Context, params *InitializeParam
 	if params == nil {
 		return nil, fmt.Errorf("%w: \"params\" must be be provided", jsonrpc2.ErrInvalidParams)
 	}
+	if vs := ss.supportedVersions; vs != nil && !slices.ContainsFunc(vs, func(v string) bool { return v < protocolVersion20260728 }) {
+		// The transport has declared (ProtocolVersionSupporter) that it serves
+		// none of the versions initialize can negotiate: there is no version to
+		// answer with.
+		data, _ := json.Marshal(UnsupportedProtocolVersionData{
+			Supported: vs,
+			Requested: params.ProtocolVersion,
+		})
+		return nil, &jsonrpc.Error{
+			Code:    CodeUnsupportedProtocolVersion,
+			Message: "unsupported protocol version",
+			Data:    data,
+		}
+	}
 	if params.ProtocolVersion >= protocolVersion20260728 {
 		// initialize is the legacy handshake: whatever newer version the client
 		// names, the session is answered with, and speaks, a legacy version.
